@@ -88,6 +88,44 @@ def section(rep, stype, mutate=None, order=1):
     return obls
 
 
+def section_paths(rep, stype, max_paths=12):
+    """the section under a path executor: [(obligations with the path condition, context)] per path"""
+    from .. import symreal as S, paths
+    ex = paths.Exec([], timeout_ms=4000)
+    orig_decide = ex.decide
+    state = {}
+
+    def decide(cond):
+        if state.get('ctx') is not S.C:
+            state.update(ctx=S.C, nc=0, nd=0)
+            for c_ in S.deg_domain():
+                ex.solver.add(c_)
+        for c_ in S.C.cons[state['nc']:]:
+            ex.solver.add(c_)
+        for c_ in S.C.dom[state['nd']:]:
+            ex.solver.add(c_)
+        state['nc'], state['nd'] = len(S.C.cons), len(S.C.dom)
+        return orig_decide(cond)
+    ex.decide = decide
+
+    def body():
+        state.clear()
+        obls = section(rep, stype)
+        return obls, S.C
+    res, _ = ex.run(body, max_paths=max_paths)
+    out = []
+    for pr in res:
+        if pr.status == 'abort' and pr.out == 'INFEASIBLE':
+            continue
+        if pr.status != 'ok':
+            raise RuntimeError('a path of the kernel step could not be executed symbolically: %s' % (pr.out,))
+        obls, ctx = pr.out
+        for ob in obls:
+            ob.extra = list(ob.extra) + list(pr.pc)
+        out.append((obls, ctx))
+    return out
+
+
 CANARIES = [
     ('kernel: Coriolis term halved', ('K', 'integrate', '+ (chi3 + Omega3) * V2', '+ (chi3) * V2'), 'ideal'),
     ('kernel: east position rate uses rn', ('K', 'integrate', 'rho1 = V2 / re\n        rho2 = -V1 / rn\n        rho3 = -rho1 * tan_lat\n        chi1 = Omega1 + rho1\n        chi2 = Omega2 + rho2\n        chi3 = Omega3 + rho3\n        lla[j + 1, 0]', 'XX'), None),
@@ -105,7 +143,7 @@ def run(run):
     from .. import enga, common
     from .. import symreal as S
     from .c17 import _mut
-    box = {'lat': (-84, 84), 'lon': (-179, 179), 'alt': (-400, 19000), 'VN': (-300, 300), 'VE': (-300, 300), 'VD': (-100, 100)}
+    box = {'lat': (-85, 85), 'lon': (-179, 179), 'alt': (-400, 19000), 'VN': (-300, 300), 'VE': (-300, 300), 'VD': (-100, 100)}
     for i in range(3):
         for nm in 'abde':
             box['%s%d' % (nm, i)] = (-3, 3)
@@ -121,7 +159,22 @@ def run(run):
     for stype in ('ideal', 'rate', 'increment'):
         try:
             obls = section(rep, stype)
-        except S.SymbolicBranch as e:
+        except S.SymbolicBranch as e0:
+            # a branch of the code depends on a symbolic value (none does in the unmodified tree):
+            # explore every outcome with the path executor; the obligations of a path hold under
+            # its path condition
+            handled = False
+            try:
+                pths = section_paths(rep, stype)
+                for obls_p, ctx_p in pths:
+                    S.set_ctx(ctx_p)
+                    rep.finish(rep.batch(obls_p, timeout_s=timeout, ctx=ctx_p), PROP, ctx_p)
+                handled = bool(pths)
+            except (S.SymbolicBranch, RuntimeError) as e1:
+                e0 = e1
+            if handled:
+                continue
+            e = e0
             # with a formal (infinitesimal) step no branch of the unmodified code depends on a
             # symbolic value; a change that makes one do so (e.g. a step that does not vanish with
             # the sampling interval) is put to the compiled code at a generic state
